@@ -39,6 +39,7 @@ package decorator
 
 //@ func decoratorController.callHook(c, parent, observedChildren, related) (resp, err)
 //@   requires validDC(c) && parent != nil
+//@   writes-assumed fresh
 //@   safety C13
 //@   let finalizing = c.finalizeHook.IsEnabled() && (parent.GetDeletionTimestamp() != nil || !c.parentSelector.Matches(parent))
 //@   at Call(h, req, out) [C10]: (h == c.finalizeHook && finalizing) || (h == c.syncHook && !finalizing && c.syncHook.IsEnabled())
@@ -62,3 +63,119 @@ package decorator
 //@   invariant loop 1 [C06]: m != nil && (forall j int :: 0 <= j && j <= rangeindex && A[j].UpdateStrategy != nil && A[j].UpdateStrategy.Method != v1alpha1.ChildUpdateOnDelete ==> m[resources.Get(A[j].APIVersion, A[j].Resource).Kind + "." + fst(common.ParseAPIVersion(A[j].APIVersion))] != nil)
 //@   ensures [C06] err == nil ==> m != nil && (forall j int :: 0 <= j && j < len(A) && A[j].UpdateStrategy != nil && A[j].UpdateStrategy.Method != v1alpha1.ChildUpdateOnDelete ==> m[resources.Get(A[j].APIVersion, A[j].Resource).Kind + "." + fst(common.ParseAPIVersion(A[j].APIVersion))] != nil)
 //@   // the value stored is the rule's own strategy unless a later rule has the same key (last rule wins): not claimed, the nested quantifier makes the obligation slow
+//@ func decoratorController.enqueueParentObjectAfter(c, obj, delay) ()
+//@   requires validDC(c)
+
+//@ func decoratorController.syncParentObject(c, parent) (err)
+//@   requires validDC(c) && validDCInformers(c) && parent != nil
+//@   safety C13
+//@   bind call Manager.SyncObject: up, soErr
+//@   bind call decoratorController.getChildren: observed, gcErr
+//@   bind call decoratorController.callHook: syncResult, chErr
+//@   bind call DeepCopy: copy
+//@   bind call Clientset.Kind: parentClient, kindErr
+//@   bind loop 1: gk, group
+//@   bind loop 2: ck, child
+//@   let fin = c.finalizer.Name
+//@   at decoratorController.getChildren(c0, p) [C10]: soErr == nil && p == up
+//@   at decoratorController.callHook(c0, p, obs, rel) [C10,C03]: soErr == nil && gcErr == nil && p == up && obs == observed
+//@   at UpdateStatus(ri, ctx, body, opts) [C16,C01]: chErr == nil && body == copy && statusChanged && parentClient.subresourceMap["status"]
+//@   at Update(ri, ctx, body, opts) [C16,C01]: chErr == nil && body == copy && (labelsChanged || annotationsChanged || statusChanged || (syncResult.Finalized && ContainsFinalizer(up, fin)))
+//@   at Update(ri, ctx, body, opts) [C16,C02]: body.GetName() == up.GetName() && body.GetNamespace() == up.GetNamespace() && body.GetUID() == up.GetUID()
+//@   at Update(ri, ctx, body, opts) [C16]: body.GetKind() == up.GetKind() && body.GetAPIVersion() == up.GetAPIVersion() && body.GetGeneration() == up.GetGeneration() && body.GetDeletionTimestamp() == up.GetDeletionTimestamp()
+//@   at Update(ri, ctx, body, opts) [C16]: ownerLen(body) == ownerLen(up) && (forall j int :: 0 <= j && j < ownerLen(up) ==> ownerAt(body, j) == ownerAt(up, j))
+//@   at Update(ri, ctx, body, opts) [C16]: forall k string :: k != "status" ==> has(body.Object, k) == has(up.Object, k) && body.Object[k] == dcval(up.Object[k])
+//@   at Update(ri, ctx, body, opts) [C16]: forall k string :: hasLabel(body, k) == ite(has(syncResult.Labels, k), syncResult.Labels[k] != nil, hasLabel(up, k))
+//@   at Update(ri, ctx, body, opts) [C16]: forall k string :: hasLabel(body, k) ==> label(body, k) == ite(has(syncResult.Labels, k), *syncResult.Labels[k], label(up, k))
+//@   at Update(ri, ctx, body, opts) [C16]: forall k string :: hasAnnotation(body, k) == ite(has(syncResult.Annotations, k), syncResult.Annotations[k] != nil, hasAnnotation(up, k))
+//@   at Update(ri, ctx, body, opts) [C16,C10]: ContainsFinalizer(body, fin) == (ContainsFinalizer(up, fin) && !syncResult.Finalized)
+//@   at Update(ri, ctx, body, opts) [C16]: forall f string :: f != fin ==> ContainsFinalizer(body, f) == ContainsFinalizer(up, f)
+//@   at ManageChildren(dc, us, p, obs, des, opts) [C10]: p.GetDeletionTimestamp() == nil || (c.finalizer.Enabled && ContainsFinalizer(p, fin) && !ContainsFinalizer(p, "foregroundDeletion") && !ContainsFinalizer(p, "orphan"))
+//@   at ManageChildren(dc, us, p, obs, des, opts) [C13,C02]: chErr == nil && gcErr == nil && obs == observed && p == up
+//@   invariant loop 1 [C02,C16]: forall g api.GroupVersionKind :: visited(1, g) ==> (forall k string :: has(desiredChildren[g], k) ==> annotation(desiredChildren[g][k], decoratorControllerAnnotation) == c.dc.Name)
+//@   invariant loop 2 [C02,C16]: forall g api.GroupVersionKind :: visited(1, g) && g != gk ==> (forall k string :: has(desiredChildren[g], k) ==> annotation(desiredChildren[g][k], decoratorControllerAnnotation) == c.dc.Name)
+//@   invariant loop 2 [C02,C16]: has(desiredChildren, gk) && group == desiredChildren[gk] && (forall k string :: visited(2, k) ==> annotation(group[k], decoratorControllerAnnotation) == c.dc.Name)
+//@   at ManageChildren(dc, us, p, obs, des, opts) [C02,C16]: des == desiredChildren && (forall g api.GroupVersionKind :: has(des, g) ==> (forall k string :: has(des[g], k) ==> annotation(des[g][k], decoratorControllerAnnotation) == c.dc.Name))
+//@   ensures [C10,C12] called(Manager.SyncObject) && soErr != nil ==> err != nil && !called(decoratorController.getChildren) && !called(ManageChildren)
+//@   ensures [C13,C12] called(decoratorController.callHook) && chErr != nil ==> err != nil && !called(ManageChildren) && !called(Update)
+
+//@ pred dcInterestedIn(c, p) = c.parentSelector.Matches(p) || ContainsFinalizer(p, c.finalizer.Name)
+
+//@ func parentQueueKey(obj) (key, err)
+//@   safety C13
+//@   requires typeis(obj, *unstructured.Unstructured) ==> unbox(obj, *unstructured.Unstructured) != nil
+//@   requires typeis(obj, cache.DeletedFinalStateUnknown) ==> typeis(unbox(obj, cache.DeletedFinalStateUnknown).Obj, *unstructured.Unstructured) && unbox(unbox(obj, cache.DeletedFinalStateUnknown).Obj, *unstructured.Unstructured) != nil
+//@   let o = unbox(obj, *unstructured.Unstructured)
+//@   ensures [C12,C14] err == nil ==> typeis(obj, *unstructured.Unstructured) || typeis(obj, cache.ExplicitKey) || typeis(obj, cache.DeletedFinalStateUnknown)
+//@   ensures [C12,C14] typeis(obj, *unstructured.Unstructured) ==> err == nil && key == o.GetAPIVersion() + ":" + o.GetKind() + ":" + o.GetNamespace() + ":" + o.GetName()
+//@   ensures [C12,C14] typeis(obj, cache.DeletedFinalStateUnknown) && err == nil ==> typeis(unbox(obj, cache.DeletedFinalStateUnknown).Obj, *unstructured.Unstructured) || typeis(unbox(obj, cache.DeletedFinalStateUnknown).Obj, cache.ExplicitKey) || typeis(unbox(obj, cache.DeletedFinalStateUnknown).Obj, cache.DeletedFinalStateUnknown)
+//@   ensures [C12,C14] typeis(obj, cache.DeletedFinalStateUnknown) && typeis(unbox(obj, cache.DeletedFinalStateUnknown).Obj, *unstructured.Unstructured) && unbox(unbox(obj, cache.DeletedFinalStateUnknown).Obj, *unstructured.Unstructured) != nil ==> err == nil && key == unbox(unbox(obj, cache.DeletedFinalStateUnknown).Obj, *unstructured.Unstructured).GetAPIVersion() + ":" + unbox(unbox(obj, cache.DeletedFinalStateUnknown).Obj, *unstructured.Unstructured).GetKind() + ":" + unbox(unbox(obj, cache.DeletedFinalStateUnknown).Obj, *unstructured.Unstructured).GetNamespace() + ":" + unbox(unbox(obj, cache.DeletedFinalStateUnknown).Obj, *unstructured.Unstructured).GetName()
+
+//@ func decoratorController.enqueueParentObject(c, obj) ()
+//@   requires validDC(c)
+//@   requires typeis(obj, *unstructured.Unstructured) ==> unbox(obj, *unstructured.Unstructured) != nil
+//@   requires typeis(obj, cache.DeletedFinalStateUnknown) ==> typeis(unbox(obj, cache.DeletedFinalStateUnknown).Obj, *unstructured.Unstructured) && unbox(unbox(obj, cache.DeletedFinalStateUnknown).Obj, *unstructured.Unstructured) != nil
+//@   safety C13
+//@   bind call parentQueueKey: key, kfErr
+//@   let isParent = typeis(obj, *unstructured.Unstructured)
+//@   let p = unbox(obj, *unstructured.Unstructured)
+//@   at Add(q, item) [C14,C12]: kfErr == nil && typeis(item, string) && unbox(item, string) == key && (isParent ==> dcInterestedIn(c, p))
+//@   ensures [C14] isParent && !dcInterestedIn(c, p) ==> !called(Add)
+//@   ensures [C14] (!isParent || dcInterestedIn(c, p)) ==> called(parentQueueKey) && (kfErr == nil ==> count(Add) == 1)
+
+//@ func decoratorController.onChildUpdate(c, old, cur) ()
+//@   requires validDC(c) && validDCInformers(c)
+//@   requires typeis(old, *unstructured.Unstructured) && unbox(old, *unstructured.Unstructured) != nil
+//@   requires typeis(cur, *unstructured.Unstructured) && unbox(cur, *unstructured.Unstructured) != nil
+//@   safety C13
+//@   ensures [C14] called(decoratorController.onChildAdd) == (unbox(old, *unstructured.Unstructured).GetResourceVersion() != unbox(cur, *unstructured.Unstructured).GetResourceVersion())
+
+//@ func decoratorController.onChildAdd(c, obj) ()
+//@   requires validDC(c) && validDCInformers(c)
+//@   requires typeis(obj, *unstructured.Unstructured) && unbox(obj, *unstructured.Unstructured) != nil
+//@   safety C13
+//@   let child = unbox(obj, *unstructured.Unstructured)
+//@   bind call decoratorController.resolveControllerRef: resolved
+//@   at decoratorController.resolveControllerRef(c0, ns, ref) [C14]: child.GetDeletionTimestamp() == nil && hasCtrl(child) && ns == child.GetNamespace() && ref != nil && ref.UID == ctrlUID(child)
+//@   at decoratorController.enqueueParentObject(c0, o) [C14]: called(decoratorController.resolveControllerRef) && resolved != nil && typeis(o, *unstructured.Unstructured) && unbox(o, *unstructured.Unstructured) == resolved
+//@   ensures [C14] child.GetDeletionTimestamp() == nil && !hasCtrl(child) ==> !called(decoratorController.enqueueParentObject)
+//@   ensures [C14] child.GetDeletionTimestamp() == nil && hasCtrl(child) && called(decoratorController.resolveControllerRef) && resolved != nil ==> count(decoratorController.enqueueParentObject) == 1
+
+//@ func decoratorController.onChildDelete(c, obj) ()
+//@   requires validDC(c) && validDCInformers(c)
+//@   requires typeis(obj, *unstructured.Unstructured) ==> unbox(obj, *unstructured.Unstructured) != nil
+//@   requires typeis(obj, cache.DeletedFinalStateUnknown) && typeis(unbox(obj, cache.DeletedFinalStateUnknown).Obj, *unstructured.Unstructured) ==> unbox(unbox(obj, cache.DeletedFinalStateUnknown).Obj, *unstructured.Unstructured) != nil
+//@   safety C13
+//@   bind call decoratorController.resolveControllerRef: resolved
+//@   at decoratorController.enqueueParentObject(c0, o) [C14]: called(decoratorController.resolveControllerRef) && resolved != nil && typeis(o, *unstructured.Unstructured) && unbox(o, *unstructured.Unstructured) == resolved
+//@   ensures [C14] called(decoratorController.resolveControllerRef) && resolved != nil ==> count(decoratorController.enqueueParentObject) == 1
+
+//@ func decoratorController.resolveControllerRef(c, childNamespace, controllerRef) (parent)
+//@   requires validDC(c) && validDCInformers(c) && controllerRef != nil
+//@   safety C13
+//@   bind call GetObject: got, getErr
+//@   ensures [C14] parent != nil ==> parent.GetName() == controllerRef.Name && parent.GetUID() == controllerRef.UID && dcInterestedIn(c, parent) && cached(parent)
+//@   ensures [C14] called(GetObject) && getErr == nil && got.GetUID() == controllerRef.UID && dcInterestedIn(c, got) ==> parent == got
+
+//@ func decoratorController.sync(c, key) (err)
+//@   requires validDC(c) && validDCInformers(c)
+//@   safety C13
+//@   bind call decoratorController.syncParentObject: spoErr
+//@   bind call splitParentQueueKey: av, kd, ns, nm, splitErr
+//@   ensures [C12] called(decoratorController.syncParentObject) ==> err == spoErr
+//@   ensures [C12] splitErr != nil ==> err != nil
+
+//@ func decoratorController.processNextWorkItem(c) (more)
+//@   requires validDC(c) && validDCInformers(c)
+//@   safety C13
+//@   bind call decoratorController.sync: syncErr
+//@   bind call Get: item, quit
+//@   at AddRateLimited(q, k) [C12]: called(decoratorController.sync) && syncErr != nil && k == item
+//@   at Forget(q, k) [C12]: called(decoratorController.sync) && syncErr == nil && k == item
+//@   ensures [C12] quit ==> !more && !called(decoratorController.sync) && !called(Done)
+//@   ensures [C12] !quit ==> more && called(Done) && called(decoratorController.sync)
+//@   ensures [C12] !quit && syncErr != nil ==> called(AddRateLimited) && !called(Forget)
+//@   ensures [C12] !quit && syncErr == nil ==> called(Forget) && !called(AddRateLimited)
+
+//@ func splitParentQueueKey(key) (apiVersion, kind, namespace, name, err)
+//@   safety C13
